@@ -26,7 +26,7 @@ fn explore_toy(
         outcomes.borrow_mut().insert(*last.borrow());
         Control::Continue
     };
-    let stats = vexec::explore(bound, None, 5, None, None, &mut run2, &mut visit)?;
+    let stats = vexec::explore(bound, None, 5, None, None, None, &mut run2, &mut visit)?;
     Ok((stats, outcomes.into_inner()))
 }
 
